@@ -170,6 +170,65 @@ def explore(ctx):
         if got is None or canon(got) != canon(parts):
             failures.append({'kind': 'spec', 'what': 'after an aggregation, a row on which a later operator fails changed the result for other rows: got %r, each group alone gives %r' % (got, parts),
                              'payload': {'query': q, 'input_lines': lines}})
+    # reads to END OF INPUT whatever the input is attached to: a pipe, a regular file on stdin, --file on a regular file,
+    # on a named pipe (no size), on /dev/stdin: the count must be the number of lines given (computed here)
+    import os
+    import subprocess
+    import tempfile
+    import threading
+    srcs = 0
+    tmpd = tempfile.mkdtemp(prefix='agv-c11-', dir=aglib.BUILD)
+    try:
+        for rep in range(3 if quick else 20):
+            nl = rng.choice([1, 3, 50, 2000]) if rep else 3
+            data = b''.join(b'{"id": %d, "k": "v%d"}\n' % (i, i % 3) for i in range(nl))
+            if rng.random() < 0.3:
+                data = data[:-1]
+            want = b'[{"_count":%d}]\n' % nl
+            fpath = os.path.join(tmpd, 'in.json')
+            open(fpath, 'wb').write(data)
+            fifo = os.path.join(tmpd, 'in.fifo')
+            if not os.path.exists(fifo):
+                os.mkfifo(fifo)
+            q = rng.choice(['* | count', '* | json | count', '"id" | json | where id >= 0 | count'])
+            runs = {}
+
+            def go(name, args, **kw):
+                try:
+                    p = subprocess.run([aglib.AGRIND, q, '-o', 'json'] + args, stdout=subprocess.PIPE, stderr=subprocess.PIPE, env=aglib.ENV, timeout=30, **kw)
+                    runs[name] = (p.returncode, p.stdout)
+                except subprocess.TimeoutExpired:
+                    runs[name] = ('timeout', b'')
+            go('stdin pipe', [], input=data)
+            with open(fpath, 'rb') as fh:
+                go('stdin from a regular file', [], stdin=fh)
+            go('--file regular file', ['--file', fpath], stdin=subprocess.DEVNULL)
+            go('--file /dev/stdin fed by a pipe', ['--file', '/dev/stdin'], input=data)
+
+            def writer():
+                with open(fifo, 'wb') as fh:
+                    fh.write(data)
+            tw = threading.Thread(target=writer, daemon=True)
+            tw.start()
+            go('--file named pipe', ['-f', fifo], stdin=subprocess.DEVNULL)
+            tw.join(5)
+            if tw.is_alive():
+                # nobody opened the pipe for reading: unblock the writer
+                try:
+                    fd = os.open(fifo, os.O_RDONLY | os.O_NONBLOCK)
+                    tw.join(2)
+                    os.close(fd)
+                except OSError:
+                    pass
+            for name, (rc, out) in runs.items():
+                srcs += 1
+                if rc != 0 or out != want:
+                    failures.append({'kind': 'spec', 'what': 'input attached as "%s" was not read to its end: rc=%s, output %r, expected %r' % (name, rc, out[:80], want),
+                                     'payload': {'query': q, 'source': name, 'lines': nl, 'generator': 'line i = {"id": i, "k": "v<i%3>"}', 'final_newline': data.endswith(b'\n')}})
+    finally:
+        for f in os.listdir(tmpd):
+            os.remove(os.path.join(tmpd, f))
+        os.rmdir(tmpd)
     # correspondence: generated pipelines on the well-formed input through the model (outcome class + rows)
     cases = []
     for i in range(80 if quick else 2000):
@@ -184,10 +243,10 @@ def explore(ctx):
         if r['corr']:
             failures.append({'kind': 'corr', 'what': r['corr'], 'payload': payload(r)})
     cov = {
-        'evaluations': evaluations + iso + len(cases), 'distinct_nontrivial': sum(v for k, v in classes.items() if k != 'well formed'),
+        'evaluations': evaluations + iso + srcs + len(cases), 'input_source_runs': srcs, 'distinct_nontrivial': sum(v for k, v in classes.items() if k != 'well formed'),
         'rule': '%d accepted queries (an explicit list covering every function, operator and option incl. date/duration arithmetic, aliases, percentiles, parse regex; plus grammar-generated pipelines) '
                 'x %d input classes (empty, huge line, binary, invalid UTF-8, CRLF, no final newline, NULs, extreme numbers/dates, deep JSON, ...); observed: exit status 0, no panic text, no watchdog; '
-                'bad-row isolation; non-trivial = any input class other than "well formed"' % (len(queries), len(inputs)),
+                'bad-row isolation; the same input attached as pipe / redirected file / --file regular file / --file named pipe / --file /dev/stdin, count against the number of lines; non-trivial = any input class other than "well formed"' % (len(queries), len(inputs)),
         'samples': [{'query': q} for q in queries[:3]] + [{'input_class': n} for n, _d in inputs[:4]],
         'input_classes': classes, 'queries': len(queries), 'isolation_cases': iso,
         'model_vs_impl_disagreements': sum(1 for r in results if r['corr']),
